@@ -512,6 +512,8 @@ def plan_c11(run_seed):
         profile = "exec" if t.chance(0.6) else "general"
         force = {"p_lets": 0.9, "p_letsize": 0.7, "p_maps": 0.8, "p_let_use": 0.6} if t.chance(0.35) else None
         prog, ov, cfg = make_program(st, "t%d" % i, profile, prop, force)
+        if t.chance(0.3):
+            prog["pulses"] = t.choice(["qscout.v1.std", "lab.gates"])  # never loaded: pure header data
         texts.append({"prog": prog, "noise": cfg["layout_noise"], "anon": cfg["anon"], "exec": profile == "exec", "ov": ov})
     enabled_passes = [p for p in PASSES if t.chance(0.7)] or ["expand_macros"]
     enabled_an = [a for a in ANALYSES if t.chance(0.7)] or ["generate"]
@@ -886,6 +888,14 @@ def plan_c16(run_seed):
             pref = [x for x in ints if x[0] in structural]
             if ints:
                 (t.choice(pref) if pref and t.chance(0.85) else t.choice(ints))[1] = t.choice([0, 0, -1, -2])
+                e["exec"] = False
+        if t.chance(0.1) and e["prog"]["maps"] and e["prog"].get("reg"):
+            # a reversed alias: negative step, start at the last element - or one past it
+            sl = [m for m in e["prog"]["maps"] if m["kind"] == "slice"]
+            if sl:
+                m_ = t.choice(sl)
+                size_ = e["prog"]["reg"][1] if isinstance(e["prog"]["reg"][1], int) else 3
+                m_["start"], m_["stop"], m_["step"] = t.choice([size_ - 1, size_, size_ + 1]), 0, -t.choice([1, 1, 2])
                 e["exec"] = False
         if t.chance(0.15) and e["prog"]["macros"]:
             # a macro called with an argument of another kind than its body needs
